@@ -10,11 +10,11 @@ open PPLV.Conv (LRow BRow Vec Sound SatCorrect holds holdsAll Generated)
 
 theorem EnginePair.of_flagC_false {nnc n cs gs fG sC sG} (sC' : BitMat)
     (h : EnginePair nnc n cs gs false fG sC sG) : EnginePair nnc n cs gs false fG sC' sG :=
-  ⟨h.sound, h.complete, h.minC, h.minG, fun h' => (by cases h'), h.satG⟩
+  ⟨h.sound, h.complete, h.minC, h.minG, h.minL, fun h' => (by cases h'), h.satG⟩
 
 theorem EnginePair.of_flagG_false {nnc n cs gs fC sC sG} (sG' : BitMat)
     (h : EnginePair nnc n cs gs fC false sC sG) : EnginePair nnc n cs gs fC false sC sG' :=
-  ⟨h.sound, h.complete, h.minC, h.minG, h.satC, fun h' => by cases h'⟩
+  ⟨h.sound, h.complete, h.minC, h.minG, h.minL, h.satC, fun h' => by cases h'⟩
 
 theorem EnginePost.of_flagC_false {nnc n S cs gs fG sC sG} (sC' : BitMat)
     (h : EnginePost nnc n S cs gs false fG sC sG) : EnginePost nnc n S cs gs false fG sC' sG :=
